@@ -1420,7 +1420,11 @@ class TermCanvas(Canvas):
             yield from self.term
         else:
             buf = [*self.scrollback_buffer, *self.term]  # the scrollback buffer is a deque
-            yield from buf[-(self.height + self.scrolling_up) : -self.scrolling_up]
+            for line in buf[-(self.height + self.scrolling_up) : -self.scrolling_up]:
+                # lines scrolled off before a resize still have the width they had then
+                if len(line) < self.width:
+                    line = [*line, *([(None, None, b" ")] * (self.width - len(line)))]  # noqa: PLW2901
+                yield line[: self.width]
 
     def content_delta(self, other: Canvas):
         if other is self:
